@@ -147,14 +147,104 @@ def run_parse(c):
             "routes": {k: canon(v) for k, v in routes.items()} if any(v != first for v in vals) else None}
 
 
+def _write_text(path, text, suffix):
+    """write `text` as the (possibly compressed) content of `path`; deterministic bytes (no mtime / file name)"""
+    raw = text.encode("utf8")
+    if suffix == ".gz":
+        raw = gzip.compress(raw, mtime=0)
+    elif suffix == ".bz2":
+        raw = bz2.compress(raw)
+    with open(path, "wb") as f:
+        f.write(raw)
+    return len(raw)
+
+
 def run_iter(c):
     from cogent3.util.io import iter_splitlines
 
     d = _dir()
-    path = os.path.join(d, "t.txt")
-    with open(path, "wb") as f:
-        f.write(c["text"].encode("utf8"))
-    return {"result": list(iter_splitlines(path, chunk_size=c["n"]))}
+    suffix = c.get("suffix", "")
+    path = os.path.join(d, "t.txt" + suffix)
+    csize = _write_text(path, c["text"], suffix)
+    return {"result": list(iter_splitlines(path, chunk_size=c["n"])), "csize": csize}
+
+
+def run_stream(c):
+    """a line-based format written by the real writer into a (compressed) file, read back through
+    parser(iter_splitlines(path, chunk_size=n)) and through load_*_seqs (LineBasedParser, default chunk size)"""
+    import cogent3
+    from cogent3.parse.fasta import MinimalGdeParser
+    from cogent3.parse.paml import PamlParser
+    from cogent3.parse.phylip import MinimalPhylipParser
+    from cogent3.util.io import iter_splitlines
+
+    fmt, suffix, n = c["fmt"], c.get("suffix", ""), c["n"]
+    aligned = len({len(s) for _, s in c["recs"]}) == 1
+    mk = cogent3.make_aligned_seqs if aligned else cogent3.make_unaligned_seqs
+    ld = cogent3.load_aligned_seqs if aligned else cogent3.load_unaligned_seqs
+    out = {}
+    try:
+        coll = mk({a: b for a, b in c["recs"]}, moltype=c["moltype"])
+        out["made"] = _recs(coll)
+    except Exception as e:  # noqa: BLE001
+        out["err"] = _err("make", e)
+        return out
+    d = _dir()
+    path = os.path.join(d, "x." + fmt + suffix)
+    try:
+        coll.write(path, **({} if c.get("w") is None else {"block_size": c["w"]}))
+    except Exception as e:  # noqa: BLE001
+        out["err"] = _err("write", e)
+        return out
+    out["csize"] = os.path.getsize(path)
+    raw = open(path, "rb").read()
+    raw = gzip.decompress(raw) if suffix == ".gz" else bz2.decompress(raw) if suffix == ".bz2" else raw
+    out["text"] = raw.decode("utf8")
+    if not isinstance(n, int):
+        # chunk size given relative to the size on disk / the decoded length: ["disk", d] | ["len", d] | ["mid"]
+        disk, dl = out["csize"], len(out["text"])
+        n = {"disk": disk, "len": dl, "mid": (disk + dl) // 2}[n[0]] + (n[1] if len(n) > 1 else 0)
+        n = max(1, n)
+    out["n_used"] = n
+    parser = {"gde": MinimalGdeParser, "phylip": MinimalPhylipParser, "paml": PamlParser}[fmt]
+    out["result"] = _obs(lambda: list(parser(iter_splitlines(path, chunk_size=n))))
+    if isinstance(out["result"], dict):
+        out["result"] = {"exc": out["result"]["exc"], "msg": out["result"].get("msg")}
+    try:
+        out["loaded"] = _recs(ld(path, moltype=c["moltype"]))
+    except Exception as e:  # noqa: BLE001
+        out["err"] = _err("load", e)
+    return out
+
+
+def run_big(c):
+    """one large file: > 1 MB compressed, so that LineBasedParser's default chunk_size (1_000_000) is smaller
+    than the file on disk; only a digest of the result is returned"""
+    import random
+
+    import cogent3
+
+    rng = random.Random(c["seed"])
+    al = "ACDEFGHIKLMNPQRSTVWY"
+    L = c["nchar"] // 2
+    data = {"s1": "".join(rng.choices(al, k=L)), "s2": "".join(rng.choices(al, k=L))}
+    coll = cogent3.make_aligned_seqs(data, moltype="protein")
+    d = _dir()
+    path = os.path.join(d, "big." + c["fmt"] + c["suffix"])
+    coll.write(path)
+    csize = os.path.getsize(path)
+    out = {"csize": csize, "dsize": 2 * L}
+    try:
+        back = cogent3.load_aligned_seqs(path, moltype="protein")
+        got = back.to_dict()
+        exp_names = ["s1", "s2"]
+        out["names_ok"] = list(back.names) == exp_names
+        out["lens"] = [len(got.get(k, "")) for k in exp_names]
+        out["equal"] = out["names_ok"] and all(got.get(k) == data[k] for k in exp_names)
+    except Exception as e:  # noqa: BLE001
+        out["err"] = _err("load", e)
+        out["equal"] = False
+    return out
 
 
 def _run_case(c):
@@ -167,6 +257,10 @@ def _run_case(c):
         return {"result": c["text"].splitlines()}
     if k == "iter":
         return run_iter(c)
+    if k == "stream":
+        return run_stream(c)
+    if k == "big":
+        return run_big(c)
     raise ValueError(k)
 
 
